@@ -1,22 +1,19 @@
-# Per-property specification used by tools/run.py
-ROOT = {"dir": "", "pkgname": "ipfscluster"}
+# Per-property specifications live in tools/propspec/Cxx.py (one file per property, each defines SPEC).
+import os, glob, importlib.util
 
-PROPS = {
-    "C03": {
-        "go": [dict(ROOT, files=["root/rig_test.go", "root/c03_test.go"], test="TestVerifC03",
-                    n_quick=900, n_thorough=40000, shards_quick=6, shards_thorough=16)],
-        "rule": "generated: 1..8 peers x metric state {absent, valid numeric, expired, invalid, non-numeric} x random current/"
-                "blacklist/priority subsets x factor pairs around the peer count x ascend/descend; a tie-free stream (75%) is "
-                "compared exactly with the model, a tie stream by spec_okb only. non-trivial = positive valid factors and >= 2 metrics; "
-                "distinct = distinct canonical JSON of the input",
-        "codes": {1: "model_eq_impl (C03 allocate)", 2: "spec_okb (C03: healthy, no duplicates, min<=healthy<=max, preference)"},
-        "trusted": ["harness/root/rig_test.go: monitor fake = real metrics.Store + PeersetFilter (as pubsubmon.LatestMetrics)",
-                    "sort.Sort on distinct keys is a sort (Go stdlib)"],
-        "level_text": "Theorems (Props/C03.v, 10, all closed) over the Gallina transcription of allocate/obtainAllocations/SortNumeric for every input, time and map-iteration order; the transcription is compared with the real (*Cluster).allocate on generated inputs at every run and the implementation's own output is checked against the boolean form of the property",
-        "level_note": "model tied to code by differential testing (generator-bounded); one metric per peer assumed (proved in C09); sort.Sort trusted to sort",
-        "assumptions": ["one latest metric per peer (C09 latest_one_per_peer)", "metrics do not expire between LatestMetrics and SortNumeric"],
-    },
-}
-
-NOT_CLAIMED = {p: "check not built yet in this session (work in progress; the technique applies, see DESIGN.md section 4)" for p in
-               ["C%02d" % i for i in range(1, 19)] if p not in PROPS}
+_D = os.path.join(os.path.dirname(os.path.abspath(__file__)), "propspec")
+PROPS = {}
+NOT_CLAIMED = {}
+for _p in sorted(glob.glob(os.path.join(_D, "C*.py"))):
+    _s = importlib.util.spec_from_file_location("propspec_" + os.path.basename(_p)[:-3], _p)
+    _m = importlib.util.module_from_spec(_s)
+    _s.loader.exec_module(_m)
+    _id = os.path.basename(_p)[:-3]
+    if hasattr(_m, "SPEC"):
+        PROPS[_id] = _m.SPEC
+    elif hasattr(_m, "NOT_APPLICABLE"):
+        NOT_CLAIMED[_id] = _m.NOT_APPLICABLE
+for _i in range(1, 19):
+    _id = "C%02d" % _i
+    if _id not in PROPS and _id not in NOT_CLAIMED:
+        NOT_CLAIMED[_id] = "check not built yet in this session (work in progress; the technique applies, see DESIGN.md section 4)"
